@@ -257,7 +257,7 @@ def run_list(acc, ops, tmpdir, only_point=None, engine="snapshot", quiet=0, case
 
     def snap(count, opi, kind, label):
         img = os.path.join(tmpdir, f"img{count}.db")
-        for suf in ("", "-journal"):
+        for suf in ("", "-journal", "-wal", "-shm"):
             if os.path.exists(path + suf):
                 shutil.copyfile(path + suf, img + suf)
         images[count] = img
